@@ -7,6 +7,8 @@ SUB = {
     "(*" + EG + "Group).Go": P + "vC09_egGo",
     "(*" + EG + "Group).Wait": P + "vC09_egWait",
 }
+SUB_SPAWN = dict(SUB)
+SUB_SPAWN["(*" + P + "actorSystem).runSpawnActivation"] = P + "vC09_admitSpawn"
 CHECK = {
     "id": "C09",
     "packages": ["./actor"],
@@ -16,6 +18,13 @@ CHECK = {
         {"fn": P + "vC09_stop", "replay": "model-only", "cases_quick": {"shape": [23, 15], "target": [1, 2], "suspended": [0]}, "cases_thorough": {"shape": [23, 15, 11, 0], "target": [1, 2, 3], "suspended": [0]},
          "cover_optional": ("ordered-pair", "subtree-of-three", "parent-notified"),
          "may_be_unreachable": ("actors outside the subtree keep their state", "an actor outside the subtree is not stopped", "a descendant's PostStop completes before its ancestor's", "the running parent of the stopped actor is notified once")},
+        # a suspended child inside the stopped subtree (p2 under p1 in the chain) must be stopped too
+        {"fn": P + "vC09_stop", "replay": "model-only", "cases": {"shape": [23], "target": [1], "suspended": [4]},
+         "cover_optional": ("ordered-pair", "subtree-of-three", "parent-notified"),
+         "may_be_unreachable": ("actors outside the subtree keep their state", "an actor outside the subtree is not stopped", "a descendant's PostStop completes before its ancestor's", "the running parent of the stopped actor is notified once")},
+        # SpawnChild landing inside / after the parent's stop
+        {"fn": P + "vC09_spawnDuringStop", "replay": "model-only", "opts": {"substitute": SUB_SPAWN}, "cover_optional": ("late-spawn-admitted",),
+         "may_be_unreachable": ("an actor spawned under a parent whose stop is under way (or over) is not left running when the stop has returned", "no registered actor is left with a dead parent")},
         # shapes (see vC09_shapeParent): 23 = root>a>b>c, 7 = root>{a,c} (b unregistered), 15 = root>{a>c, b}, 0 = root only; op: 0 addNode 1 addWatcher 2 removeWatcher 3 deleteNode
         {"fn": P + "vC09_treeOps", "replay": "model-only", "cases_quick": {"shape": [23, 7], "op": [0, 1, 2, 3]}, "cases_thorough": {"shape": list(range(24)), "op": [0, 1, 2, 3]},
          "cover_optional": ("add", "add-rejected", "watch", "delete"),
@@ -25,9 +34,9 @@ CHECK = {
                                 "Inv: watchers and watchees are symmetric", "Inv: watchees and watchers are symmetric", "parent(x) is the actor x was added under")},
     ],
     "opts": {"unwind": 24, "feas_from_iter": 6, "substitute": SUB, "map_range": "per_entry", "map_dedup": True, "recursion": 5},
-    "stop": [k for k in SUB.keys() if "PID)" in k],
-    "timeout_ms": {"quick": 480000, "thorough": 3000000},
-    "explanation": 'vC09_stop: real PID.Shutdown -> doStop (cancelInFlightRequests, unregisterMetrics, internal/chain runners, freeWatchees, freeChildren recursing into the real Shutdown of every child, Actor.PostStop, freeWatchers, deferred reset), tree.node/children/removeDescendant/removeWatcher/watchers/watchees, then deathWatch.handleTerminated -> tree.deleteNode for every Terminated the death watch was sent, on a tree of 4 actors under a root guardian (tree shape: one job per labelled shape; stopped actor: one job per actor; which actors are suspended: case split; symbolic: which of the four actors each of two bystander actors, one running and one suspended, watches). Asserted: exactly the actors of the stopped subtree run PostStop, once each, every descendant before its ancestor; when Shutdown returns none of them is running and the others are untouched; the death watch is told once per stopped actor; afterwards exactly the stopped actors are neither registered nor resolvable by name, the node counter follows and Inv_tree holds (id/name indexes agree, every registered node holds its live pid, parent live+registered and listing the child, descendants<->parentNode and watchers<->watchees symmetric, counter = number of nodes); a running watcher outside the subtree receives exactly one Terminated per stopped actor it watches, nobody else any. vC09_treeOps: tree.addNode/addWatcher/removeWatcher/deleteNode with arbitrary arguments from an arbitrary valid tree over the pool {root,a,b,c} (shape and operation kind: case split; watch relation and arguments symbolic): Inv_tree holds in the constructed state and after the operation, the operation has exactly the effect of a reference model (registered set, parent map, watch relation), and node/nodeByName/parent/children/descendants/watchers/count agree with the model. Substitutions: (*PID).Tell -> recorder, (*PID).Equals -> exact ID comparison, errgroup.WithContext/Group.Go/Group.Wait -> sequential (Go runs the function at once; children stop one after the other).',
+    "stop": [k for k in SUB.keys() if "PID)" in k] + ["(*" + P + "actorSystem).runSpawnActivation"],
+    "timeout_ms": {"quick": 1500000, "thorough": 3000000},
+    "explanation": 'vC09_stop: real PID.Shutdown -> doStop (cancelInFlightRequests, unregisterMetrics, internal/chain runners, freeWatchees, freeChildren recursing into the real Shutdown of every child, Actor.PostStop, freeWatchers, deferred reset), tree.node/children/removeDescendant/removeWatcher/watchers/watchees, then deathWatch.handleTerminated -> tree.deleteNode for every Terminated the death watch was sent, on a tree of 4 actors under a root guardian (tree shape: one job per labelled shape; stopped actor: one job per actor; which actors are suspended: case split; symbolic: which of the four actors each of two bystander actors, one running and one suspended, watches). Asserted: exactly the actors of the stopped subtree run PostStop, once each, every descendant before its ancestor; when Shutdown returns none of them is running and the others are untouched; the death watch is told once per stopped actor; afterwards exactly the stopped actors are neither registered nor resolvable by name, the node counter follows and Inv_tree holds (id/name indexes agree, every registered node holds its live pid, parent live+registered and listing the child, descendants<->parentNode and watchers<->watchees symmetric, counter = number of nodes); a running watcher outside the subtree receives exactly one Terminated per stopped actor it watches, nobody else any. vC09_spawnDuringStop: parent with one child; SpawnChild -> spawnChildLocal (real liveness guard, childAddress, findRunningChild) is called at an arbitrary one of: inside the PostStop of the child (parent waiting in freeChildren after its snapshot), inside the PostStop of the parent, after Shutdown returned, or never; the materialization behind runSpawnActivation is replaced by its tree effect (a running actor registered under the parent); asserted: nothing admitted under the stopping/stopped parent is left running, no registered actor is left with a dead parent. vC09_treeOps: tree.addNode/addWatcher/removeWatcher/deleteNode with arbitrary arguments from an arbitrary valid tree over the pool {root,a,b,c} (shape and operation kind: case split; watch relation and arguments symbolic): Inv_tree holds in the constructed state and after the operation, the operation has exactly the effect of a reference model (registered set, parent map, watch relation), and node/nodeByName/parent/children/descendants/watchers/count agree with the model. Substitutions: (*PID).Tell -> recorder, (*PID).Equals -> exact ID comparison, errgroup.WithContext/Group.Go/Group.Wait -> sequential (Go runs the function at once; children stop one after the other).',
     "bounds": {"actors": "4 under a root guardian + death watch", "tree shapes": "quick 2 of the 24 labelled shapes (chain p0>p1>p2>p3, p0>{p1>p3,p2}); thorough 4 (those, p0>{p1>p2,p3}, four siblings); treeOps: quick 2, thorough all 24 shapes of the pool", "stopped actor": "quick p1,p2; thorough p1,p2,p3 (subtrees of 1-3 actors; stopping p0, i.e. the whole tree of 4, ran clean once for the chain (1495 obligations, 301 s) but needs ~9 GB per job and is not registered)", "suspended": "none (case split parameter; only the suspended bystander is exercised)", "bystander watch relation": "any subset of the 2x4 pairs"},
     "assumptions": ["children of one parent are stopped sequentially (errgroup replaced); concurrent overlapping stops/spawns/restarts are outside the claim",
                     "PostStop hooks do not fail", "map iteration order = insertion order"],
